@@ -1,0 +1,37 @@
+//go:build verif
+
+package rhp
+
+// Verification hooks for the binary codecs (properties C11/C10 of the /verif
+// framework). This file only re-exports unexported methods; it adds no
+// behaviour and is compiled only with `-tags verif`.
+
+import "go.sia.tech/core/types"
+
+// A VerifCodecer is anything with the unexported codec methods (every Object,
+// and the parameter structs embedded in requests).
+type VerifCodecer interface {
+	encodeTo(*types.Encoder)
+	decodeFrom(*types.Decoder)
+}
+
+// VerifCodec exposes the codec of an Object (or parameter struct).
+type VerifCodec struct{ O VerifCodecer }
+
+// EncodeTo implements types.EncoderTo.
+func (c VerifCodec) EncodeTo(e *types.Encoder) { c.O.encodeTo(e) }
+
+// DecodeFrom implements types.DecoderFrom.
+func (c VerifCodec) DecodeFrom(d *types.Decoder) { c.O.decodeFrom(d) }
+
+// VerifMaxLen exposes maxLen.
+func VerifMaxLen(o Object) int { return o.maxLen() }
+
+// VerifAccountTokenCodec exposes (AccountToken).encodeTo/decodeFrom.
+type VerifAccountTokenCodec struct{ T *AccountToken }
+
+// EncodeTo implements types.EncoderTo.
+func (c VerifAccountTokenCodec) EncodeTo(e *types.Encoder) { c.T.encodeTo(e) }
+
+// DecodeFrom implements types.DecoderFrom.
+func (c VerifAccountTokenCodec) DecodeFrom(d *types.Decoder) { c.T.decodeFrom(d) }
